@@ -29,6 +29,10 @@ open PolyplyVerif PolyplyVerif.MapToMol PolyplyVerif.Proofs.MapToMol
 
 variable {κ : Type} [DecidableEq κ]
 
+namespace Ex
+export PolyplyVerif.Proofs.MapToMol.Example (ff tbl tbl2 nodes nodes2 gly ala mr nter)
+end Ex
+
 /-! ### what the specification says, one step at a time -/
 
 /-- a regular residue contributes its block, re-indexed: atom `i` of the block becomes node `off + i`,
@@ -98,16 +102,17 @@ theorem C01_interactions (ff : FF) (t : Tables κ) (nodes : List (ResNode κ)) (
 /-- **C01_multires.**  The same two statements for any mix of regular residues and copies of
 multi-residue blocks (`from_itp`): whenever the resid-sorted residue list is cut into segments — single
 regular residues, and runs of `nres` residues forming one copy of a multi-residue block whose fragment
-bookkeeping is in place (`SegsOK`: the copy is fragment number `0, 1, 2, …` in resid order and the
-fragment lists exactly the copy's nodes) — `k·m` `from_itp` nodes become `k` copies of the `m`-residue
-block, resids offset per copy.  When the very first residue belongs to a copy the program does not
-re-base the block's resids, hence `start = 1` is required there (finding multires-first-resid-not-1). -/
+bookkeeping is in place (`SegsOK`: the copy is some fragment, in any numbering, and the fragment lists
+exactly the copy's nodes) — `k·m` `from_itp` nodes become `k` copies of the `m`-residue block, resids
+offset per copy.  When the very first residue belongs to a copy the program does not re-base the block's
+resids, hence `start = 1` is required there (known finding multires-first-resid-not-1, counterexample
+`C01_multires_first_resid_counterexample`). -/
 theorem C01_multires (ff : FF) (t : Tables κ) (nodes : List (ResNode κ)) (segs : List (Seg κ)) (start : Nat)
     (hsorted : sortByResid nodes = segNodes segs)
     (hne : segs ≠ []) (hstart : 1 ≤ start)
     (hfirst : ∀ n others rest, segs = .multi n others :: rest → start = 1)
     (hkeys : (nodes.map (·.key)).Nodup)
-    (hok : SegsOK ff t 0 segs)
+    (hok : SegsOK ff t segs)
     (hres : (nodes.map (·.resid)).Perm (List.range' start nodes.length)) :
     ∃ st, addBlocks ff t nodes = .ok st ∧ st.mol.atoms = (specMol ff nodes).atoms ∧
       st.mol.ixns = (specMol ff nodes).ixns := by
@@ -117,6 +122,33 @@ theorem C01_multires (ff : FF) (t : Tables κ) (nodes : List (ResNode κ)) (segs
   unfold addBlocks specMol
   rw [hsorted] at hr hk ⊢
   exact addBlocksSorted_segs ff t segs start hne hstart hfirst hk hok hr
+
+/-- The hypothesis `hfirst` of `C01_multires` cannot be dropped — known finding
+multires-first-resid-not-1: a copy of the two-residue block on the FIRST residues of a graph whose resids
+start at 7 keeps the block's own resids 1, 2 (the specification demands 7, 8). -/
+theorem C01_multires_first_resid_counterexample :
+    (addBlocks Ex.ff ⟨[(1, "MR"), (2, "MR")], [(1, 0), (2, 0)], [[1, 2]]⟩
+        [⟨1, 7, "R1", some "MR"⟩, ⟨2, 8, "R2", some "MR"⟩]).toOption.map (fun st => st.mol.atoms.map (·.resid)) =
+      some [1, 1, 2] ∧
+    (specMol Ex.ff ([⟨1, 7, "R1", some "MR"⟩, ⟨2, 8, "R2", some "MR"⟩] : List (ResNode Nat))).atoms.map (·.resid) =
+      [7, 7, 8] := by decide
+
+/-- The hypothesis `1 ≤ start` of `C01_layout` cannot be dropped — known finding resid-start-0 (vermouth's
+`merge_molecule` reads the charge-group offset from the FIRST atom when every resid so far is 0): charge
+groups 1,2 | 2,3 where the specification demands 1,2 | 3,4. -/
+theorem C01_layout_resid0_counterexample :
+    (addBlocks Ex.ff ⟨[(1, "GLY"), (2, "GLY")], [], []⟩
+        [⟨1, 0, "GLY", none⟩, ⟨2, 1, "GLY", none⟩]).toOption.map (fun st => st.mol.atoms.map (·.cgrp)) =
+      some [1, 2, 2, 3] ∧
+    (specMol Ex.ff ([⟨1, 0, "GLY", none⟩, ⟨2, 1, "GLY", none⟩] : List (ResNode Nat))).atoms.map (·.cgrp) =
+      [1, 2, 3, 4] := by decide
+
+/-- The hypothesis `SingleBlock` (block atoms carry resid 1) of `C01_layout` cannot be dropped — known
+finding block-resid-not-1: merged copies add the block's own resid to the running resid. -/
+theorem C01_layout_block_resid_counterexample :
+    (addBlocks ⟨[⟨"X", 1, [⟨5, 1, []⟩], []⟩], []⟩ ⟨[(1, "X"), (2, "X"), (3, "X")], [], []⟩
+        [⟨1, 1, "X", none⟩, ⟨2, 2, "X", none⟩, ⟨3, 3, "X", none⟩]).toOption.map (fun st => st.mol.atoms.map (·.resid)) =
+      some [1, 6, 11] := by decide
 
 /-! ### frame: links -/
 
@@ -176,10 +208,6 @@ theorem C01_frame_mods_all (protein : List String) (ff : FF) (nodes : List (ResN
 
 /-! ### non-vacuity: concrete instances meet the hypotheses -/
 
-namespace Ex
-export PolyplyVerif.Proofs.MapToMol.Example (ff tbl tbl2 nodes nodes2 gly ala mr nter)
-end Ex
-
 namespace Example
 open PolyplyVerif.Proofs.MapToMol.Example
 
@@ -200,9 +228,9 @@ def segs2 : List (Seg Nat) :=
 
 theorem mrBlock : MultiBlock mr := ⟨by decide, by decide, ⟨2, 2, [("atomname", "a"), ("resname", "R2")]⟩, by decide, by decide⟩
 
-theorem segsOK : SegsOK ff tbl2 0 segs2 := by
-  refine ⟨⟨"MR", mr, rfl, by decide, mrBlock, by decide, by decide, by decide, by decide, by decide⟩,
-    ⟨"MR", mr, rfl, by decide, mrBlock, by decide, by decide, by decide, by decide, by decide⟩,
+theorem segsOK : SegsOK ff tbl2 segs2 := by
+  refine ⟨⟨"MR", mr, 0, rfl, by decide, mrBlock, by decide, by decide, by decide, by decide, by decide⟩,
+    ⟨"MR", mr, 1, rfl, by decide, mrBlock, by decide, by decide, by decide, by decide, by decide⟩,
     ⟨rfl, by decide, ala, by decide, by decide, by decide⟩, trivial⟩
 
 end Example
